@@ -243,10 +243,17 @@ def check_history(c):
             if got != exp:
                 raise Violation("%s:history:enc-differs-from-fresh-object" % c["mode"], {"op": i, "out": exp}, {"op": i, "out": got})
             last_ct = (got, M)
-        elif last_ct is not None:
-            got = guard(mo.dec, last_ct[0])
-            if got != last_ct[1]:
-                raise Violation("%s:history:dec(enc(M))!=M" % c["mode"], {"op": i, "out": last_ct[1]}, {"op": i, "out": got})
+        elif what == "dec-last":
+            if last_ct is not None:
+                got = guard(mo.dec, last_ct[0])
+                if got != last_ct[1]:
+                    raise Violation("%s:history:dec(enc(M))!=M" % c["mode"], {"op": i, "out": last_ct[1]}, {"op": i, "out": got})
+        else:
+            # decrypt a ciphertext that an equally configured FRESH object produced for another message
+            ct = one_op(dict(c, M=M), "enc", M)
+            got = guard(mo.dec, ct)
+            if got != M:
+                raise Violation("%s:history:dec-of-other-ciphertext!=M" % c["mode"], {"op": i, "out": M}, {"op": i, "out": got})
 
 
 def history_strategy(tier):
@@ -267,7 +274,7 @@ def history_strategy(tier):
             return c
         return st.builds(build, st.sampled_from(["ECB", "CBC", "CTR", "CTS_ECB", "CTS_CBC"]),
                          st.lists(gen.blob_of(gen.length(B, 2)), min_size=2, max_size=4), gen.blob(B),
-                         st.lists(st.sampled_from(["enc", "enc", "dec"]), min_size=4, max_size=4))
+                         st.lists(st.sampled_from(["enc", "enc", "dec", "dec-last"]), min_size=4, max_size=4))
     return CI.config_strategy(["des", "aes128", "tdea", "tf256"]).flatmap(for_conf)
 
 
@@ -284,7 +291,7 @@ FACETS = [
           rule="all 9 cipher configurations, all modes and paddings, lengths k*B + boundary residue, counter halves near wrap-around"),
     Facet("call-histories", check_history, strategy=history_strategy, budget={"quick": 500, "thorough": 15000},
           shards={"quick": 16, "thorough": 32}, nontrivial=lambda c: len(c["ops"]) >= 2,
-          classify=lambda c: (c["mode"], "".join(k[0] for k, _ in c["ops"])),
-          rule="2..4 enc/dec operations on ONE mode object: each enc equals a fresh object's, each dec returns the message"),
+          classify=lambda c: (c["mode"], "".join(k[0] if k != "dec-last" else "l" for k, _ in c["ops"])),
+          rule="2..4 operations on ONE mode object: enc (== a fresh object's), dec of the ciphertext just produced, dec of a ciphertext that a fresh object produced for a different message"),
 ]
 WEIGHT = {"length-sweep": 8, "random": 4}
